@@ -19,7 +19,10 @@ Inductive ty :=
 | TList (t: ty)              (* List / Tuple[T,...] / Dict[str,T] values: a comprehension over the items, in order *)
 | TOpt (t: ty)               (* Optional[T]:  <packer> if value is not None else None *)
 | TUnion (cs: list nat)      (* Union of dataclasses *)
-| TDisc (p: nat) (withfield supertypes: bool).
+| TDisc (p: nat) (withfield supertypes: bool)
+| TDiscU (cs: list nat) (withfield subtypes supertypes: bool).
+    (* Annotated[Union[A, B, ...], Discriminator(field?, include_subtypes?, include_supertypes?)]: packed by the
+       union packer, unpacked by the variant dispatcher over the members' subclasses and/or the members *)
     (* Annotated[P, Discriminator(field="kind" | None, include_subtypes=True, include_supertypes=...)]:
        packed like P; unpacked by the variant dispatcher of the holder *)
 
@@ -48,11 +51,15 @@ Record cinfo := { c_fields : list field;
                   c_pre : bool; c_post : bool; c_prede : bool; c_postde : bool;
                   c_ctx : bool;
                   c_parent : option nat; c_tag : option nat; c_disc : option bool;
-                  c_xf : xf }.
+                  c_xf : xf;
+                  c_tagger : bool }.
+(* c_tagger: the class-level discriminator has a variant_tagger_fn (here: the class's name), so every variant is
+   registered under its own name whether or not its body binds the discriminator attribute *)
 Definition env := list cinfo.
-Definition mk_cinfo fl pre post prede postde ctx : cinfo := Build_cinfo fl pre post prede postde ctx None None None xf_none.
+Definition mk_cinfo fl pre post prede postde ctx : cinfo :=
+  Build_cinfo fl pre post prede postde ctx None None None xf_none false.
 Definition mk_cinfo_h fl pre post prede postde ctx par tag disc : cinfo :=
-  Build_cinfo fl pre post prede postde ctx par tag disc xf_none.
+  Build_cinfo fl pre post prede postde ctx par tag disc xf_none false.
 Definition empty_class : cinfo := mk_cinfo [] false false false false false.
 Definition cls (E: env) (c: nat) : cinfo := nth c E empty_class.
 
@@ -68,8 +75,8 @@ Fixpoint subclasses_f (E: env) (fuel: nat) (p: nat) : list nat :=
 Definition subclasses (E: env) (p: nat) : list nat := subclasses_f E (length E) p.
 Definition is_sub (E: env) (cr c: nat) : bool := existsb (Nat.eqb cr) (subclasses E c).
 (* registry[tag]: every variant registers variant.__dict__[field]; later variants overwrite earlier ones *)
-Definition lookup_tag (E: env) (vs: list nat) (t: nat) : option nat :=
-  fold_left (fun acc v => if opt_nat_eqb (c_tag (cls E v)) t then Some v else acc) vs None.
+Definition lookup_tag (E: env) (tagger: bool) (vs: list nat) (t: nat) : option nat :=
+  fold_left (fun acc v => if (if tagger then v =? t else opt_nat_eqb (c_tag (cls E v)) t) then Some v else acc) vs None.
 
 (* ---------------------------------------------------------------- values *)
 (* VInst c i j fs: an instance of class c with identity i whose __pre_serialize__ (if the
@@ -222,7 +229,7 @@ Section Pack.
                     | VList l => seqM (map (fun x => pack m x t' pc px k) l)
                     | _ => fail_ end
       | TOpt t' => match v with VNone => ok_ [] | _ => on_ty t' pc px k end
-      | TUnion cs =>
+      | TUnion cs | TDiscU cs _ _ _ =>
           match inst with
           | Some (cr, i, j, subs) =>
               match m with
@@ -294,7 +301,8 @@ Section Wt.
       | TDisc p _ _ => inst_ok p
       | TList t' => match v with VList l => forallb (fun x => wt x t') l | _ => false end
       | TOpt t' => match v with VNone => true | _ => on_ty t' end
-      | TUnion cs => match v with
+      | TUnion cs | TDiscU cs _ _ _ =>
+                     match v with
                      | VInst cr _ _ _ => existsb (Nat.eqb cr) cs && inst_ok cr
                      | _ => false end
       end.
@@ -306,7 +314,7 @@ Fixpoint union_free (t: ty) : bool :=
   match t with
   | TInt | TDc _ => true
   | TList t' | TOpt t' => union_free t'
-  | TUnion _ => false
+  | TUnion _ | TDiscU _ _ _ _ => false
   | TDisc _ wf _ => wf end.
 Definition disc_det (C: cinfo) : bool := match c_disc C with Some false => false | _ => true end.
 Definition env_union_free (E: env) : bool :=
@@ -323,7 +331,7 @@ Section Uni.
     match t with
     | TInt | TDc _ | TDisc _ _ _ => true
     | TList t' | TOpt t' => union_uniform t'
-    | TUnion cs => all_same (map (fun c => c_ctx (cls E c)) cs) end.
+    | TUnion cs | TDiscU cs _ _ _ => all_same (map (fun c => c_ctx (cls E c)) cs) end.
   Definition env_union_uniform : bool :=
     forallb (fun C => forallb (fun f => union_uniform (f_ty f)) (c_fields C)) E.
 End Uni.
@@ -408,10 +416,10 @@ Section Unpack.
   (* the variant dispatcher (unpack.py DiscriminatedUnionUnpackerBuilder) over the variants vs, each given as
      "variant.from_dict(value)".  With a field: value[field] (missing key: MissingDiscriminatorError; not a mapping:
      TypeError), then the registered class; without: try every variant in order, `except Exception: pass`. *)
-  Definition dispatch (tag: option (option nat)) (withfield: bool) (vs: list nat) (from_dict: nat -> D) : D :=
+  Definition dispatch (tag: option (option nat)) (withfield tagger: bool) (vs: list nat) (from_dict: nat -> D) : D :=
     if withfield then
       match tag with
-      | Some (Some t) => match lookup_tag E vs t with
+      | Some (Some t) => match lookup_tag E tagger vs t with
                          | Some v => from_dict v
                          | None => dfail end       (* SuitableVariantNotFoundError *)
       | _ => dfail
@@ -420,6 +428,8 @@ Section Unpack.
 
   Definition disc_variants (p: nat) (supertypes: bool) : list nat :=
     subclasses E p ++ (if supertypes then [p] else []).
+  Definition discu_variants (cs: list nat) (subtypes supertypes: bool) : list nat :=
+    (if subtypes then flat_map (subclasses E) cs else []) ++ (if supertypes then cs else []).
 
   Fixpoint unpack (w: wire) {struct w} : dsub :=
     let tag : option (option nat) := match w with WDict t _ => Some t | _ => None end in
@@ -431,16 +441,22 @@ Section Unpack.
       end in
     (* c.from_dict(value): a class whose own Config has a discriminator is only a dispatcher - its own hooks are
        not emitted, the chosen variant's from_dict runs the variant's (possibly inherited) hooks *)
+    (* ... and the variant it selects may itself be such a dispatcher (nested class-level discriminators): its
+       from_dict dispatches again over its own subclasses.  Structural in the nesting depth, bounded by |E|. *)
     let call_dc (c: nat) : D :=
-      match c_disc (cls E c) with
-      | Some wf => dispatch tag wf (subclasses E c) plain
-      | None => plain c
-      end in
+      (fix fd (fuel: nat) (c: nat) {struct fuel} : D :=
+         match fuel with
+         | 0 => plain c
+         | S f => match c_disc (cls E c) with
+                  | Some wf => dispatch tag wf (c_tagger (cls E c)) (subclasses E c) (fd f)
+                  | None => plain c
+                  end
+         end) (S (length E)) c in
     fix on_ty (t: ty) : D :=
       match t with
       | TInt => match w with WInt => dret VInt | _ => dfail end
       | TDc c => call_dc c
-      | TDisc p wf sup => dispatch tag wf (disc_variants p sup) plain
+      | TDisc p wf sup => dispatch tag wf false (disc_variants p sup) call_dc
       | TList t' => match w with
                     | WList l => fun n => match dseq (map (fun x => unpack x t') l) n with
                                           | (Some vs, tr, n1) => (Some (VList vs), tr, n1)
@@ -448,6 +464,7 @@ Section Unpack.
                     | _ => dfail end
       | TOpt t' => match w with WNone => dret VNone | _ => on_ty t' end
       | TUnion cs => dtry (map call_dc (dedup_nat cs []))
+      | TDiscU cs wf sb sp => dispatch tag wf false (discu_variants cs sb sp) call_dc
       end.
 End Unpack.
 
